@@ -1168,6 +1168,26 @@ fn run_case13(tpl: &Template, case: &Case13) -> Out13 {
                 }
             }
         }
+        // the restored subscription keeps following its query: after the first change of the new life
+        // the materialised rows equal the query again (a wrongly reloaded row counter or column list
+        // shows here), and every row id is still unique
+        {
+            let want = {
+                let conn = agent.pool().read().await.unwrap();
+                let mut w = tokio::task::block_in_place(|| dump_query(&conn, qsql));
+                w.sort();
+                w
+            };
+            let mut got = read_sub(format!("SELECT {} FROM query", cols.join(",")));
+            got.sort();
+            if got != want {
+                viol.push(("C13:rows-differ-from-query-after-the-first-change-of-the-new-life".to_string(), json!({"materialised": got, "query_result": want})));
+            }
+            let dup = read_sub("SELECT count(*) - count(DISTINCT __corro_rowid) FROM query".to_string());
+            if dup.first().and_then(|r| r.first()).map(|c| c != "i:0").unwrap_or(true) {
+                viol.push(("C13:duplicate-row-ids-after-restart".to_string(), json!({"dup": dup})));
+            }
+        }
         opts.subs_manager.drop_handles().await;
         viol
     });
